@@ -13,7 +13,8 @@
 (*             bytes from e_phoff; e_phnum = PN_XNUM (0xffff): the count is  *)
 (*             sh_info of section header 0.  `phdr0`: the same loop on a    *)
 (*             valid file WITHOUT a table (e_phoff = e_phentsize = e_phnum  *)
-(*             = 0, e.g. a relocatable object)                             *)
+(*             = 0, e.g. a relocatable object); `shdr0` likewise for a      *)
+(*             file without section headers (a stripped executable)        *)
 (*   symcount  gABI ch.4 "Symbol Table": sh_size / sh_entsize entries       *)
 (*   dyn       gABI ch.5 "Dynamic Section": entries up to the DT_NULL entry  *)
 (*   notes     gABI ch.5 "Note Section": header of three words, name and    *)
@@ -38,9 +39,9 @@
 (* kind read as all-zero (what is there is other content, not a second      *)
 (* adversarial fault) - except dynamic tags, where a misplaced read never   *)
 (* is DT_NULL, chain words, where it never has the end bit (the worst cases *)
-(* for those scans), and version records, where `gb` chooses between the    *)
-(* all-zero record and the worst one for a count-driven chain walk (count   *)
-(* far beyond everything, displacements 0).                                *)
+(* for those scans), and version records / a misplaced section header 0,   *)
+(* where `gb` chooses between the all-zero record and the worst one for a   *)
+(* count-driven walk (count far beyond everything, displacements 0).        *)
 (*                                                                         *)
 (* No state constraint.  `steps` saturates at K*(n+1)+1 so that the state   *)
 (* space is finite even where the walk is not.                              *)
@@ -79,7 +80,7 @@ VARIABLES w,            \* walker name
           st            \* machine state
 vars == <<w, n, flt, gb, st>>
 
-AllWalkers == {"shdr", "phdr", "phdr0", "symcount", "dyn", "notes", "sysvhash", "gnuhash", "verchain"}
+AllWalkers == {"shdr", "shdr0", "phdr", "phdr0", "symcount", "dyn", "notes", "sysvhash", "gnuhash", "verchain"}
 Ns8 == 1..8
 Ns12 == {1, 2, 3, 4, 5, 6, 7, 8, 9, 10, 12}
 Ns16 == 1..16
@@ -98,12 +99,12 @@ Ent == 2          \* a dynamic entry, a version auxiliary
 Grp == 7          \* one version entry with its two auxiliaries
 NoteLen == 5      \* note header + one unit of name + one unit of descriptor
 
-RecSize(wk) == CASE wk \in {"shdr", "phdr", "phdr0", "symcount", "verchain", "notes"} -> Hdr
+RecSize(wk) == CASE wk \in {"shdr", "shdr0", "phdr", "phdr0", "symcount", "verchain", "notes"} -> Hdr
                  [] wk = "dyn" -> Ent
                  [] OTHER -> 1
 \* number of records of the valid file (unit 0 is the file header, never part of a table)
 NRec(wk, nn) == CASE wk \in {"shdr", "phdr", "symcount"} -> (nn - 1) \div Hdr
-                  [] wk = "phdr0" -> 0
+                  [] wk \in {"phdr0", "shdr0"} -> 0
                   [] wk = "dyn" -> (nn - 1) \div Ent
                   [] wk = "notes" -> (nn - 1) \div NoteLen
                   [] wk = "verchain" -> (nn - 1) \div Grp
@@ -111,7 +112,7 @@ NRec(wk, nn) == CASE wk \in {"shdr", "phdr", "symcount"} -> (nn - 1) \div Hdr
                   [] wk = "gnuhash" -> MaxI(0, nn - 7)             \* chain words
 \* where the valid table / extent starts: it ends at the end of the file
 Start(wk, nn) == CASE wk \in {"shdr", "phdr", "symcount"} -> nn - Hdr * NRec(wk, nn)
-                   [] wk = "phdr0" -> 0
+                   [] wk \in {"phdr0", "shdr0"} -> 0
                    [] wk = "dyn" -> nn - Ent * NRec(wk, nn)
                    [] wk = "notes" -> nn - NoteLen * NRec(wk, nn)
                    [] wk = "verchain" -> nn - Grp * NRec(wk, nn)
@@ -120,7 +121,7 @@ Start(wk, nn) == CASE wk \in {"shdr", "phdr", "symcount"} -> nn - Hdr * NRec(wk,
 \* the fields a fault can hit: <<field, unit>>; unit 0 = not per record; per-record fields at the first and the last record
 Focus(wk, nn) == IF NRec(wk, nn) = 0 THEN {} ELSE {1, NRec(wk, nn)}
 GlobalFields(wk) ==
-  CASE wk = "shdr" -> {"off", "entsize", "num", "sh0size"}
+  CASE wk \in {"shdr", "shdr0"} -> {"off", "entsize", "num", "sh0size"}
     [] wk \in {"phdr", "phdr0"} -> {"off", "entsize", "num", "sh0info"}
     [] wk = "symcount" -> {"size", "entsize"}
     [] wk = "dyn" -> {"off"}
@@ -139,7 +140,7 @@ FaultSites(wk, nn) == {<<f, 0>> : f \in GlobalFields(wk)} \cup {<<f, u>> : f \in
 Default(wk, nn, f, u) ==
   LET k == NRec(wk, nn) IN
   CASE f = "off" -> Start(wk, nn)
-    [] f = "entsize" -> IF wk = "phdr0" THEN 0 ELSE Hdr
+    [] f = "entsize" -> IF wk \in {"phdr0", "shdr0"} THEN 0 ELSE Hdr
     [] f = "num" -> k
     [] f \in {"sh0size", "sh0info"} -> 0
     [] f = "size" -> IF wk = "notes" THEN NoteLen * k ELSE Hdr * k
@@ -197,13 +198,16 @@ Go(s) == [s EXCEPT !.steps = MinI(@ + 1, Cap)]
 
 \* section / program header tables
 TableStep(s) ==
-  LET off == Get("off", 0)   es == Get("entsize", 0)   num == Get("num", 0) IN
+  LET off == Get("off", 0)   es == Get("entsize", 0)   num == Get("num", 0)   IsSh == w \in {"shdr", "shdr0"} IN
   CASE s.pc = "start" ->
-         IF w = "shdr" /\ off = 0 THEN Halt(s, "no table")                                   \* e_shoff = 0: no section header table
-         ELSE IF Guarded /\ es < Hdr /\ (num # 0 \/ w = "shdr") THEN Halt(s, "raise: entry size")   \* (g1)
-         ELSE IF w = "shdr" /\ num = 0                                                         \* extended numbering: count in sh_size of entry 0
-              THEN IF off + Hdr > n THEN Halt(s, "raise: eof") ELSE Go([s EXCEPT !.pc = "walk", !.pos = Sat(off), !.left = Get("sh0size", 0)])
-         ELSE IF w # "shdr" /\ IsOnes("num")                                                   \* PN_XNUM: count in sh_info of section header 0
+         IF IsSh /\ off = 0 THEN Halt(s, "no table")                                   \* e_shoff = 0: no section header table
+         ELSE IF Guarded /\ es < Hdr /\ (num # 0 \/ IsSh) THEN Halt(s, "raise: entry size")   \* (g1)
+         ELSE IF IsSh /\ num = 0                                                               \* extended numbering: count in sh_size of entry 0
+              THEN IF off + Hdr > n THEN Halt(s, "raise: eof")
+                   \* an entry 0 that is not where the valid file has it reads as other content: gb
+                   ELSE Go([s EXCEPT !.pc = "walk", !.pos = Sat(off),
+                                     !.left = IF gb = "stall" /\ off # Start(w, n) THEN Omega ELSE Get("sh0size", 0)])
+         ELSE IF ~IsSh /\ IsOnes("num")                                                   \* PN_XNUM: count in sh_info of section header 0
               THEN Go([s EXCEPT !.pc = "walk", !.pos = Sat(off), !.left = Get("sh0info", 0)])
          ELSE Go([s EXCEPT !.pc = "walk", !.pos = Sat(off), !.left = num])
     [] s.pc = "walk" ->
@@ -277,7 +281,7 @@ VerStep(s) ==
          IF Guarded /\ nx = 0 THEN Halt(s, "done: chain end")                               \* (g2)
          ELSE Go([s EXCEPT !.pc = "entry", !.pos = Sat(Plus(s.pos, nx)), !.left = Dec(s.left)])
 
-Step(s) == CASE w \in {"shdr", "phdr", "phdr0"} -> TableStep(s)
+Step(s) == CASE w \in {"shdr", "shdr0", "phdr", "phdr0"} -> TableStep(s)
              [] w = "symcount" -> SymCountStep(s)
              [] w = "dyn" -> DynStep(s)
              [] w = "notes" -> NotesStep(s)
@@ -287,7 +291,7 @@ Step(s) == CASE w \in {"shdr", "phdr", "phdr0"} -> TableStep(s)
 
 Init == /\ w \in Walkers /\ n \in Ns
         /\ flt \in {F \in FaultSets(w, n) : Distinct(F)}
-        /\ gb \in (IF w = "verchain" THEN {"zero", "stall"} ELSE {"zero"})
+        /\ gb \in (IF w \in {"verchain", "shdr", "shdr0"} THEN {"zero", "stall"} ELSE {"zero"})
         /\ st = S0
 Walk == ~st.halted /\ st' = Step(st) /\ UNCHANGED <<w, n, flt, gb>>
 Next == Walk
@@ -305,7 +309,7 @@ NoStall == ~st.halted => ENABLED Walk
 \* how a walker field is called in a real file: alternatives <<record role, field name>>; the fault plan
 \* machine of Faults.tla names its records with the same roles
 Maps(f) ==
-  CASE w = "shdr" -> (CASE f = "off" -> {<<"ehdr", "e_shoff">>} [] f = "entsize" -> {<<"ehdr", "e_shentsize">>}
+  CASE w \in {"shdr", "shdr0"} -> (CASE f = "off" -> {<<"ehdr", "e_shoff">>} [] f = "entsize" -> {<<"ehdr", "e_shentsize">>}
                         [] f = "num" -> {<<"ehdr", "e_shnum">>} [] f = "sh0size" -> {<<"shdr:null0", "sh_size">>})
     [] w \in {"phdr", "phdr0"} -> (CASE f = "off" -> {<<"ehdr", "e_phoff">>} [] f = "entsize" -> {<<"ehdr", "e_phentsize">>}
                                      [] f = "num" -> {<<"ehdr", "e_phnum">>} [] f = "sh0info" -> {<<"shdr:null0", "sh_info">>})
@@ -331,7 +335,7 @@ Which(x) == IF x.u = 0 THEN "" ELSE IF x.u = 1 THEN "first" ELSE "last"
 \* to the widest one that does - Faults.tla ClassDigits)
 ConcreteClasses(c) == CASE c = "hi" -> <<"b31", "b63">> [] c = "ones" -> <<"m32", "m64">> [] OTHER -> <<c>>
 \* the kind of valid file the walker starts from, where it matters (a trait of the seed, see Faults!SeedLines)
-Needs == CASE w = "phdr0" -> "no phtable" [] w = "phdr" -> "phtable" [] w = "shdr" -> "shtable" [] OTHER -> ""
+Needs == CASE w = "phdr0" -> "no phtable" [] w = "phdr" -> "phtable" [] w = "shdr" -> "shtable" [] w = "shdr0" -> "no shtable" [] OTHER -> ""
 Witness == [w |-> w, n |-> n, k |-> NRec(w, n), pc |-> st.pc, pos |-> st.pos, needs |-> Needs, gb |-> gb,
             faults |-> {[f |-> x.f, which |-> Which(x), c |-> x.c, classes |-> ConcreteClasses(x.c),
                          maps |-> {<<m[1], m[2]>> : m \in Maps(x.f)}] : x \in flt}]
